@@ -9,6 +9,10 @@ the concatenated input.  The model mirrors the code AFTER the C06 repairs (dedup
 field hashes, dedup columns read with backfill, tail hands out a copy of its result).  `kf` is the key of a
 tuple of field values; in the code `digestKey h combine` with `h` the hash of a single value and `combine`
 the digest of the sequence of hashes (both xxhash) — parameters.
+
+Section `plan` (model: SigModel/Model/PipePlan.lean, lemmas: Lemmas/C06P.lean, suite pipeplan): which commands
+CanParallelSearch / SetupQueryParallelism clone into parallel chains, `sort` under any batching, the merge of the chains'
+sorted results under the merge limit (numReturned), and the second read of the merger after DataProcessor.Rewind.
 -/
 import SigModel.Model.Pipe
 import SigModel.Lemmas.C06
